@@ -6,7 +6,7 @@ prop="${2:-$(python3 -c "import json;print(json.load(open('$d/meta.json'))['prop
 cd /repo || exit 9
 if ! git diff --quiet; then echo "/repo dirty, refusing"; exit 9; fi
 git apply "$d/patch.diff" || { echo "patch does not apply"; exit 9; }
-cd /verif && /venv/bin/python -m pxv check "$prop" --tier quick | grep -v "^  rule" | cut -c1-400
+cd /verif && PXV_EVIDENCE_DIR=/tmp/pxv_evidence_scratch /venv/bin/python -m pxv check "$prop" --tier quick | grep -v "^  rule" | cut -c1-400
 rc=${PIPESTATUS[0]}
 git -C /repo checkout -- . 
 echo "seed $sid prop $prop -> rc=$rc"
